@@ -368,7 +368,17 @@ pub fn check_pure(c: &MsgCase) -> CheckResult {
         .map_err(|e| Fail::new("read_message-dribble-rejects-valid", e.to_string()))?;
     ensure!(rm == msg, "read_message-dribble-identity", "read_message(dribble) != original");
 
+    // The reused buffer first receives a LONGER frame, then this one: afterwards
+    // it must hold exactly this frame (no stale tail from the previous read).
+    let longer = {
+        let mut b2 = body.clone();
+        b2.extend(fill(1 + (c.trailing as usize) * 13, c.bseed ^ 0x77));
+        codec::encode_frame(&oh, &query, &b2)
+    };
     let mut buf = vec![0xEEu8; (c.trailing as usize) * 7];
+    repe::read_message_into(&mut Cursor::new(&longer), &mut buf)
+        .map_err(|e| Fail::new("read_message_into-rejects-valid", e.to_string()))?;
+    ensure!(buf == longer, "read_message_into-bytes", "read_message_into (first use) differs");
     repe::read_message_into(&mut Cursor::new(&want), &mut buf)
         .map_err(|e| Fail::new("read_message_into-rejects-valid", e.to_string()))?;
     ensure!(
@@ -385,10 +395,12 @@ pub fn check_pure(c: &MsgCase) -> CheckResult {
     let (am, ab) = block_on(async {
         let mut r1 = DribbleReader::new(&want, c.dribble as usize);
         let m = repe::async_io::read_message_async(&mut r1).await;
+        let mut r0 = DribbleReader::new(&longer, 4096);
+        let mut b = vec![0xEEu8; 3];
+        let r0 = repe::async_io::read_message_into_async(&mut r0, &mut b).await;
         let mut r2 = DribbleReader::new(&want, c.dribble as usize);
-        let mut b = Vec::new();
         let r = repe::async_io::read_message_into_async(&mut r2, &mut b).await;
-        (m, r.map(|_| b))
+        (m, r0.and(r).map(|_| b))
     });
     let am = am.map_err(|e| Fail::new("read_message_async-rejects-valid", e.to_string()))?;
     ensure!(am == msg, "read_message_async-identity", "read_message_async != original");
